@@ -15,3 +15,9 @@ CHECKS["C01"] = (
     "exhaustive for all 1..3-block layouts over a small genome x strands x every position and sub-interval, and all (location, query) pairs of <=2-block layouts; random layouts incl. self-overlapping blocks; one recorded finding (K16), two repaired (F6, F10)",
     "DESIGN.md 5/C01",
 )
+
+CHECKS["C02"] = (
+    "runtime monitoring: position-set reference model and structural invariant monitors (well-formed / span / normalised / no-empty-block) evaluated on every result of every set-algebra, optimisation, extension, reversal, shift and distance call under exhaustive small-scope and seeded random workloads",
+    "exhaustive for all ordered pairs of <=2-block locations over a small genome x 3 strands x all flag combinations and all unary operations on <=3-block layouts; random larger pairs incl. engineered touching/nesting, self-overlapping operands and mismatched parents; three defects repaired (F10, F11, F13)",
+    "DESIGN.md 5/C02",
+)
